@@ -68,6 +68,10 @@ pub struct IndSys {
 	/// must already be the state "v has been seen forever"; the signal detectors start from neutral seeds
 	/// by convention, so the signal oracle keeps the prescribed first step)
 	pub first_free: bool,
+	/// one more state-dependent symbol: a candle whose four prices all equal the FIRST VALUE the indicator
+	/// returned on the previous step (a price exactly on the indicator's own line: crossings by equality,
+	/// touches without a crossing)
+	pub touch: bool,
 }
 
 #[derive(Clone)]
@@ -89,6 +93,8 @@ pub struct IState {
 	pub mag: f64,
 	/// steps taken (drives the volatile stream)
 	pub k: u32,
+	/// first value returned on the previous step (NaN before the first step)
+	pub last_v0: f64,
 }
 
 impl IndSys {
@@ -97,10 +103,14 @@ impl IndSys {
 			.iter()
 			.map(|c| (0..c.size().1.max(c.size().0) as usize).map(|_| SlotStats { buy: 0.into(), sell: 0.into(), silent: 0.into(), exempt: 0.into() }).collect())
 			.collect();
-		Self { name: name.to_string(), cfgs, c0s, alphabet, oracle, flat, stats, zigzag: false, volatile: false, first_free: false }
+		Self { name: name.to_string(), cfgs, c0s, alphabet, oracle, flat, stats, zigzag: false, volatile: false, first_free: false, touch: false }
 	}
 	pub fn with_zigzag(mut self) -> Self {
 		self.zigzag = true;
+		self
+	}
+	pub fn with_touch(mut self) -> Self {
+		self.touch = true;
 		self
 	}
 	pub fn with_first_free(mut self) -> Self {
@@ -178,7 +188,7 @@ impl System for IndSys {
 				let Ok(Ok(imp)) = catch(|| c.init(c0)) else { continue };
 				let Some(rf) = refmodel::ind::make(c.const_name(), &rcfg, &rc(c0)) else { continue };
 				let alt = refmodel::ind::make_alt(c.const_name(), &rcfg, &rc(c0));
-				v.push((IState { imp, rf, alt, cfg: i, prev: *c0, trend: 0, took_alt: 0, took_doc: 0, mag: price_mag(c0), k: 0 }, format!("{} {} c0={}", c.const_name(), c.to_json().unwrap_or_default(), In::C(*c0).show())));
+				v.push((IState { imp, rf, alt, cfg: i, prev: *c0, trend: 0, took_alt: 0, took_doc: 0, mag: price_mag(c0), k: 0, last_v0: f64::NAN }, format!("{} {} c0={}", c.const_name(), c.to_json().unwrap_or_default(), In::C(*c0).show())));
 			}
 		}
 		v
@@ -214,6 +224,9 @@ impl System for IndSys {
 		if self.volatile {
 			v.push((n + 5, if self.flat && !(depth == 1 || s.trend == 4) { 1 } else { 0 }));
 		}
+		if self.touch && s.last_v0.is_finite() && s.last_v0 > 0.5 && s.last_v0 < 1e6 {
+			v.push((n + 6, if self.flat { 1 } else { 0 }));
+		}
 		v
 	}
 	fn show_act(&self, a: &usize) -> String {
@@ -230,6 +243,8 @@ impl System for IndSys {
 			"zigzag-down(-2/+1)".into()
 		} else if *a == n + 5 {
 			"volatile-next".into()
+		} else if *a == n + 6 {
+			"all-prices-on-the-previous-first-value".into()
 		} else {
 			In::C(self.alphabet[*a]).show()
 		}
@@ -248,6 +263,9 @@ impl System for IndSys {
 			shift(&s.prev, if s.trend == 3 { 1.0 } else { -2.0 })
 		} else if *a == self.alphabet.len() + 5 {
 			volatile_candle(s.k + 1, s.prev.close as f64)
+		} else if *a == self.alphabet.len() + 6 {
+			let p = s.last_v0 as yata::core::ValueType;
+			Candle { open: p, high: p, low: p, close: p, volume: s.prev.volume }
 		} else {
 			self.alphabet[*a]
 		};
@@ -283,6 +301,7 @@ impl System for IndSys {
 			Err(p) => return Step::Violation(Failure::new(format!("{name}/harness/reference-panicked"), format!("{}: {}", p.at(), p.msg))),
 		};
 		let own: Vec<f64> = r.values().iter().map(|v| *v as f64).collect();
+		n.last_v0 = own.first().copied().unwrap_or(f64::NAN);
 		let want_s = match catch(|| n.rf.signals(&r_c, &own)) {
 			Ok(v) => v,
 			Err(p) => return Step::Violation(Failure::new(format!("{name}/harness/reference-panicked"), format!("{}: {}", p.at(), p.msg))),
